@@ -62,7 +62,12 @@ def step (toks : List String) : Option (String × String) :=
       let lastS ← kv rest "last"
       let last := if lastS == "-" then [] else lastS.toList
       let m := ",".intercalate ((listTags (tags.map (·.toList)) last).map String.ofList)
-      some (m, "*")
+      -- specification, written independently: the distinct tags after `last`, ascending
+      let ins (x : String) : List String → List String := fun l =>
+        (l.takeWhile (· < x)) ++ [x] ++ (l.dropWhile (· < x))
+      let lastStr := String.ofList last
+      let sp := (tags.eraseDups.filter (fun t => last.isEmpty || lastStr < t)).foldr ins []
+      some (m, ",".intercalate sp)
   | _ => none
 
 end Oras.Driver.Pg
